@@ -11,7 +11,7 @@ ASSUMPTIONS = ['which letters / placeholders the two regular expressions of chec
                'regex semantics and not decided by a contract']
 LEVEL_TEXT = ('Deductive proof of the offset/length/context arithmetic: create_message reports offset == start and length == '
     'len(match); create_context returns an excerpt in which text[offset\':offset\'+length\'] are exactly the flagged characters '
-    '(TAB/NL blanked) and the marker never runs past the excerpt, for all texts, offsets and lengths. Which characters the '
+    '(TAB/NL blanked) and the marker never runs past the excerpt, for all texts, offsets and lengths; the cover test of --single-letters (inner function f) returns True exactly when the start of the letter lies in [beg, end) of some hit (loop invariant over the hit list as ghost arrays). Which characters the '
     'regular expressions select is NOT decided.')
 LEVEL_NOTE = 'Regex meaning (isolated letters, accepted patterns, equation placeholders) outside the proof.'
 TECHNIQUE = 'contract-based deductive verification: array-encoded strings, VCs from the real AST, z3'
